@@ -158,6 +158,10 @@ class C02(Check):
                 order = list(F.FORMATS)
                 st('order').shuffle(order)
                 s['order'] = order
+            krng = st('kinds')
+            s['kind'] = core.weighted(krng, imgsim.CHUNK_KINDS)
+            if smode == 'bare' and krng.random() < 0.12:
+                s['tracing'] = True
             nch = streams.n_chunks(r)
             if nch and st('queries').random() < 0.5:
                 s['q'] = sorted(set(st('queries').randrange(nch)
@@ -274,11 +278,12 @@ class C02(Check):
             self.bump('faults', 'query_mid_stream', len(q))
         m = imgsim.fi()
         if s['mode'] == 'bare':
-            insp = m.ALL_FORMATS[fmt]()
+            insp = imgsim.new_inspector(fmt, bool(s.get('tracing')))
             pos = 0
             err = None
+            maker = streams.ChunkMaker(s.get('kind'), sizes)
             for idx, nb in enumerate(sizes):
-                chunk = data[pos:pos + nb]
+                chunk = maker.make(data[pos:pos + nb])
                 pos += nb
                 if err is None:
                     try:
@@ -287,6 +292,9 @@ class C02(Check):
                         err = type(e).__name__
                 if idx in q:
                     self._structural(insp, fmt, 'mid-stream@%d' % pos)
+            # a producer that reuses its buffer has moved on by the time
+            # the verdict is asked for
+            maker.scrub()
             insp.finish()
             res = imgsim.q_safety(insp)
             log.add('bare', fmt, err, res)
@@ -296,7 +304,8 @@ class C02(Check):
         else:
             pers = 'iter' if s['mode'] == 'witer' else 'file'
             r = imgsim.drive_wrapper(data, sizes, pers, order=s.get('order'),
-                                     wq=q or None, watch_regions=False)
+                                     wq=q or None, watch_regions=False,
+                                     kind=s.get('kind'))
             if r['error']:
                 # a wrapper that raises is C06's subject; nothing to judge
                 # here for this schedule
